@@ -612,7 +612,7 @@ func genNulCollision(r *h.Rand) []string {
 }
 
 func gen(r *h.Rand, tier string, emit func([]string)) {
-	n := 40
+	n := 24
 	if tier == "thorough" {
 		n = 400
 	}
